@@ -404,7 +404,7 @@ def local_names(fn):
 EXPECT_ORIGIN = {
     'np': 'module numpy',
     'range': 'builtin', 'len': 'builtin', 'int': 'builtin', 'max': 'builtin', 'float': 'builtin', 'bool': 'builtin',
-    'isinstance': 'builtin', 'ValueError': 'builtin', 'random': 'module random',
+    'isinstance': 'builtin', 'ValueError': 'builtin', 'list': 'builtin', 'random': 'module random',
     'binarize': 'def bct/utils/other.py:binarize', 'normalize': 'def bct/utils/other.py:normalize',
     'invert': 'def bct/utils/other.py:invert', 'NotImplementedError': 'builtin',
     'get_rng': 'def bct/utils/miscellaneous_utilities.py:get_rng',
@@ -3008,9 +3008,214 @@ def family_bfs():
             'problems': [p for r in rs for p in r.problems]}
 
 
+# ====================================================================== family 'reach'
+
+class ReachX:
+    """expression / statement mapping for reachdist (Model/CoreIRReach.lean: Ex, Stmt)"""
+
+    def ex(self, node):
+        if isinstance(node, ast.Name):
+            return '(.ref %s)' % q(node.id)
+        if isinstance(node, ast.Compare) and len(node.ops) == 1 and isinstance(node.ops[0], ast.NotEq) and const_nat(node.comparators[0]) == 0:
+            return '(.ne0 %s)' % self.ex(node.left)
+        # s - a + k
+        if (isinstance(node, ast.BinOp) and isinstance(node.op, ast.Add) and const_int(node.right) is not None
+                and isinstance(node.left, ast.BinOp) and isinstance(node.left.op, ast.Sub) and isinstance(node.left.left, ast.Name)):
+            return '(.affine %s %s %s)' % (q(node.left.left.id), self.ex(node.left.right), lint(const_int(node.right)))
+        if isinstance(node, ast.Call):
+            f = node.func
+            if isinstance(f, ast.Attribute) and f.attr == 'copy' and not node.args and not node.keywords:
+                return self.ex(f.value)
+            if (isinstance(f, ast.Attribute) and f.attr == 'astype' and len(node.args) == 1 and not node.keywords
+                    and isinstance(node.args[0], ast.Name) and node.args[0].id == 'float'):
+                return '(.toNum %s)' % self.ex(f.value)
+            if isinstance(f, ast.Name) and f.id == 'binarize' and len(node.args) == 1 and not node.keywords:
+                return '(.binarize %s)' % self.ex(node.args[0])
+            a = np_call(node, 'array', 1)
+            if a and len(node.keywords) == 1 and isinstance(kw(node, 'dtype'), ast.Name) and kw(node, 'dtype').id == 'float':
+                return self.ex(a[0])
+            a = np_call(node, 'dot', 2)
+            if a and not node.keywords and all(isinstance(x, ast.Name) for x in a):
+                return '(.dot %s %s)' % (q(a[0].id), q(a[1].id))
+            a = np_call(node, 'logical_or', 2)
+            if a and not node.keywords:
+                return '(.lor %s %s)' % (self.ex(a[0]), self.ex(a[1]))
+        raise Unrec(node, 'unrecognised expression %s' % src_of(node))
+
+    def stmt(self, st):
+        if isinstance(st, ast.If) and isinstance(st.test, ast.Name) and not st.orelse and len(st.body) == 1 \
+                and isinstance(st.body[0], ast.Assign) and len(st.body[0].targets) == 1 and isinstance(st.body[0].targets[0], ast.Name):
+            return '.bindIf %s %s %s' % (q(st.test.id), q(st.body[0].targets[0].id), self.ex(st.body[0].value))
+        if isinstance(st, ast.AugAssign) and isinstance(st.op, ast.Add) and isinstance(st.target, ast.Name):
+            if isinstance(st.value, ast.Constant) and type(st.value.value) is int and st.value.value >= 0:
+                return '.incr %s %d' % (q(st.target.id), st.value.value)
+            return '.augAdd %s %s' % (q(st.target.id), self.ex(st.value))
+        if isinstance(st, ast.Assign) and len(st.targets) == 1:
+            t, v = st.targets[0], st.value
+            if isinstance(t, ast.Name):
+                if isinstance(v, ast.Constant) and type(v.value) is int and v.value >= 0:
+                    return '.setNat %s %d' % (q(t.id), v.value)
+                if isinstance(v, ast.Call) and isinstance(v.func, ast.Name) and len(v.args) == 1 and not v.keywords:
+                    if v.func.id == 'len' and isinstance(v.args[0], ast.Name):
+                        return '.len %s %s' % (q(t.id), q(v.args[0].id))
+                    r_ = v.args[0]
+                    if (v.func.id == 'list' and isinstance(r_, ast.Call) and isinstance(r_.func, ast.Name) and r_.func.id == 'range'
+                            and len(r_.args) == 1 and isinstance(r_.args[0], ast.Name) and not r_.keywords):
+                        return '.rangeList %s %s' % (q(t.id), q(r_.args[0].id))
+                a = np_call(v, 'sum', 1)
+                if a and len(v.keywords) == 1 and const_nat(kw(v, 'axis')) is not None and isinstance(a[0], ast.Name):
+                    return '.sumAxis %s %s %d' % (q(t.id), q(a[0].id), const_nat(kw(v, 'axis')))
+                a = np_call(v, 'delete', 2)
+                if a and not v.keywords and all(isinstance(x, ast.Name) for x in a):
+                    return '.delete %s %s %s' % (q(t.id), q(a[0].id), q(a[1].id))
+                return '.bind %s %s' % (q(t.id), self.ex(v))
+            if isinstance(t, ast.Tuple) and all(isinstance(e, ast.Name) for e in t.elts):
+                w = np_call(v, 'where', 1)
+                if (len(t.elts) == 1 and w and not v.keywords and isinstance(w[0], ast.Compare) and len(w[0].ops) == 1
+                        and isinstance(w[0].ops[0], ast.Eq) and const_nat(w[0].comparators[0]) == 0 and isinstance(w[0].left, ast.Name)):
+                    return '.whereEq0 %s %s' % (q(t.elts[0].id), q(w[0].left.id))
+                if (isinstance(v, ast.Call) and isinstance(v.func, ast.Name) and not v.keywords and all(isinstance(x, ast.Name) for x in v.args)):
+                    return '.call %s %s %s' % (lst(q(e.id) for e in t.elts), q(v.func.id), lst(q(x.id) for x in v.args))
+            if isinstance(t, ast.Subscript) and isinstance(t.value, ast.Name) and is_np(v, 'inf'):
+                sl = t.slice
+                # m[m == s + k] = np.inf
+                if (isinstance(sl, ast.Compare) and len(sl.ops) == 1 and isinstance(sl.ops[0], ast.Eq) and isinstance(sl.left, ast.Name)
+                        and sl.left.id == t.value.id and isinstance(sl.comparators[0], ast.BinOp) and isinstance(sl.comparators[0].op, ast.Add)
+                        and isinstance(sl.comparators[0].left, ast.Name) and const_nat(sl.comparators[0].right) is not None):
+                    return '.infWhereEq %s %s %d' % (q(t.value.id), q(sl.comparators[0].left.id), const_nat(sl.comparators[0].right))
+                if isinstance(sl, ast.Tuple) and len(sl.elts) == 2:
+                    if full_slice(sl.elts[0]) and isinstance(sl.elts[1], ast.Name):
+                        return '.infCols %s %s' % (q(t.value.id), q(sl.elts[1].id))
+                    if full_slice(sl.elts[1]) and isinstance(sl.elts[0], ast.Name):
+                        return '.infRows %s %s' % (q(t.value.id), q(sl.elts[0].id))
+        raise Unrec(st, 'unrecognised statement %s' % src_of(st))
+
+
+def extract_reach(fn, path):
+    r = Routine(fn.name, path)
+    r.line = fn.lineno
+    a = fn.args
+    if a.vararg or a.kwarg or a.kwonlyargs:
+        r.bad(fn, 'unexpected parameter kinds')
+    bad_rec = ('{ name := "?", params := [], step := [], pw := "?", nn := "?", tm := "?", tr := "?", tc := "?", incrVar := "?", incrBy := 0, '
+               'callTargets := [], callee := "?", callArgs := [], ret := [] }')
+    f = {'params': lst(q(x.arg) for x in a.args), 'defaults': lean_defaults(defaults_of(fn)), 'inner': bad_rec, 'body': '[]', 'ret': '[]'}
+    r.fields = f
+    body = body_wo_doc(fn)
+    r.parts = {'body': lines_of(body)}
+    if len(body) < 3 or not isinstance(body[0], ast.FunctionDef) or not isinstance(body[-1], ast.Return):
+        r.bad(fn, 'expected the nested helper definition, statements, `return`')
+        return r
+    x = ReachX()
+
+    def block(sts):
+        out = []
+        for st in sts:
+            try:
+                out.append(x.stmt(st))
+            except Unrec as e:
+                r.bad(e.node if hasattr(e.node, 'lineno') else st, e.msg)
+        return out
+    g = body[0]
+    ga = g.args
+    if ga.vararg or ga.kwarg or ga.kwonlyargs or ga.defaults or g.decorator_list:
+        r.bad(g, 'unexpected parameter kinds / decorators on the nested function')
+    gb = body_wo_doc(g)
+    try:
+        if len(gb) < 2 or not isinstance(gb[-1], ast.Return) or not isinstance(gb[-2], ast.If):
+            raise Unrec(g, 'expected statements, `if …: …`, `return` in the nested function')
+        step = block(gb[:-2])
+        nd = gb[-2]
+        t = nd.test
+        ok = (isinstance(t, ast.BoolOp) and isinstance(t.op, ast.And) and len(t.values) == 2 and not nd.orelse and len(nd.body) == 2)
+        c1, c2 = (t.values if ok else (None, None))
+        ok = ok and (isinstance(c1, ast.Compare) and len(c1.ops) == 1 and isinstance(c1.ops[0], ast.LtE) and isinstance(c1.left, ast.Name)
+                     and isinstance(c1.comparators[0], ast.Name))
+        an = np_call(c2, 'any', 1) if ok else None
+        ok = ok and bool(an) and not c2.keywords and isinstance(an[0], ast.Compare) and len(an[0].ops) == 1 and isinstance(an[0].ops[0], ast.Eq) \
+            and const_nat(an[0].comparators[0]) == 0 and isinstance(an[0].left, ast.Subscript) and isinstance(an[0].left.value, ast.Name)
+        ix = np_call(an[0].left.slice, 'ix_', 2) if ok else None
+        ok = ok and bool(ix) and not an[0].left.slice.keywords and all(isinstance(z, ast.Name) for z in ix)
+        if not ok:
+            raise Unrec(nd, 'unrecognised recursion test %s' % src_of(nd.test))
+        i0, i1 = nd.body
+        if not (isinstance(i0, ast.AugAssign) and isinstance(i0.op, ast.Add) and isinstance(i0.target, ast.Name)
+                and isinstance(i0.value, ast.Constant) and type(i0.value.value) is int and i0.value.value >= 0):
+            raise Unrec(i0, 'expected `powr += 1`')
+        cs = x.stmt(i1)
+        if not cs.startswith('.call '):
+            raise Unrec(i1, 'expected the recursive call')
+        ct, cf, ca = i1.targets[0].elts, i1.value.func.id, i1.value.args
+        f['inner'] = ('{ name := %s, params := %s,\n      step := %s,\n      pw := %s, nn := %s, tm := %s, tr := %s, tc := %s,\n'
+                      '      incrVar := %s, incrBy := %d, callTargets := %s, callee := %s,\n      callArgs := %s,\n      ret := %s }' % (
+                          q(g.name), lst(q(y.arg) for y in ga.args), '[' + ',\n        '.join(step) + ']', q(c1.left.id), q(c1.comparators[0].id),
+                          q(an[0].left.value.id), q(ix[0].id), q(ix[1].id), q(i0.target.id), i0.value.value, lst(q(e.id) for e in ct), q(cf),
+                          lst(q(y.id) for y in ca), lst(map(q, ret_names(r, gb[-1])))))
+    except Unrec as e:
+        r.bad(e.node if hasattr(e.node, 'lineno') else g, e.msg)
+    except (AttributeError, IndexError, TypeError) as e:
+        r.bad(g, 'unrecognised statement shape in the nested function (%s)' % type(e).__name__)
+    f['body'] = '[' + ',\n      '.join(block(body[1:-1])) + ']'
+    f['ret'] = lst(map(q, ret_names(r, body[-1])))
+    r.counts = {'statements': len(body) - 2, 'nested': len(gb)}
+    return r
+
+
+def lean_reach(r, path, prim):
+    relb = os.path.basename(path)
+    f = r.fields
+    a, b = r.parts.get('body', (r.line, r.line))
+    out = ['import BctVerif.Props.CoresReach',
+           'import BctVerif.Props.CoresUtil',
+           '/-!',
+           '# GENERATED by translate/cores.py (family reach) — do not edit.  Re-emitted from the current source on every check run.',
+           'source: %s' % path,
+           '-/',
+           'set_option linter.unusedTactic false',
+           'set_option linter.unreachableTactic false',
+           'namespace Bct.Gen.CoresReach',
+           'open Bct Bct.Dist Bct.CoreIR.Reach Bct.Cores.Reach',
+           '']
+    out += lean_folded_primitive(prim, 'reachdist')
+    for p in r.problems:
+        out.append('-- NOT RECOGNISED: ' + p.replace('\n', ' '))
+    out.append('/-- `reachdist` (%s:%d) -/' % (relb, r.line))
+    out.append('def ir_reachdist : ReachIR :=\n  { recognised := %s, origins := %s,\n    params := %s, defaults := %s,\n    inner :=\n    %s,\n'
+               '    body := %s,\n    ret := %s }\n' % ('true' if not r.problems else 'false', lean_origins(r), f['params'], f['defaults'], f['inner'],
+                                                     f['body'], f['ret']))
+    out.append('theorem reachdist_ok : reachOk ir_reachdist = true := by\n  first | decide | fail "reachdist_ok: the statements extracted from '
+               'reachdist (%s:%d-%d) %s"\n' % (relb, a, b, 'were not all recognised by translate/cores.py' if r.problems
+                                               else 'are not the expected program'))
+    out.append('theorem reachdist_computes {n : Nat} (A : AMat Rat n) :\n'
+               '    ∃ Dm, run ir_reachdist (n + 1) (embA A) true = some [.mat (boolM (reachdist A).1), .mat Dm] ∧\n'
+               '      ∀ i j, toExt? (Dm.get i j) = some ((reachdist A).2.get i j) :=\n'
+               '  link_reachdist _ reachdist_ok (n + 1) (Nat.le_refl _) A\n')
+    out.append('end Bct.Gen.CoresReach')
+    return '\n'.join(out) + '\n'
+
+
+def family_reach():
+    path = os.path.join(common.REPO, 'bct', 'algorithms', 'distance.py')
+    fns, err = parse_functions(path)
+    name = 'reachdist'
+    if name not in fns:
+        r = Routine(name, path); r.problems.append('%s: %s' % (name, err or 'function not found in ' + path))
+    else:
+        try:
+            r = extract_reach(fns[name], path)
+            check_header(r, fns[name], fns)
+        except Exception as e:  # noqa — an extractor crash must not look like success
+            r = Routine(name, path); r.problems.append('%s: extractor raised %s: %s' % (name, type(e).__name__, e))
+    prim = fold_util_primitive(path, 'binarize')
+    return {'module': 'BctVerif.Gen.CoresReach', 'file': 'CoresReach.lean', 'text': lean_reach(r, path, prim), 'sources': [path],
+            'routines': {r.name: dict(getattr(r, 'counts', {}), line=r.line, recognised=not r.problems),
+                         'binarize (called by reachdist)': dict(line=prim.line, file=rel(prim.file), recognised=not prim.problems)},
+            'problems': list(r.problems) + list(prim.problems)}
+
+
 # ====================================================================== entry points
 
-FAMILIES = {'floyd': family_floyd, 'peel': family_peel, 'util': family_util, 'comp': family_comp, 'dijk': family_dijk, 'path': family_path, 'bin': family_bin, 'bfs': family_bfs}
+FAMILIES = {'floyd': family_floyd, 'peel': family_peel, 'util': family_util, 'comp': family_comp, 'dijk': family_dijk, 'path': family_path, 'bin': family_bin, 'bfs': family_bfs, 'reach': family_reach}
 
 
 def write_if_changed(path, text):
